@@ -281,6 +281,8 @@ def main():
     emit_bool("drain_count_guarded_by_flag", re.search(r'if\s+internal\.recv_blocking\s*\{\s*0\s*\}\s*else\s*\{\s*internal\.wait_list\.len\(\)', dr))
     emit_bool("drain_buffer_before_senders", 0 <= dr.find('queue.pop_front') < dr.find('next_send'))
     emit_bool("drain_returns_required_cap", re.search(r'Ok\(required_cap\)', dr))
+    emit_nat("drain_lock_acquisitions", len(re.findall(r'acquire_internal\(', dr)))
+    emit_bool("drain_never_releases_lock", 'drop(internal)' not in dr)
 
     # ---- count guards of Clone / Drop / clone_* / close
     cg = []
